@@ -285,3 +285,6 @@ func freeVarBinding(fv *ssa.FreeVar) ssa.Value {
 	}
 	return nil
 }
+
+// FreeVarBinding is the exported form of freeVarBinding.
+func FreeVarBinding(fv *ssa.FreeVar) ssa.Value { return freeVarBinding(fv) }
